@@ -772,9 +772,17 @@ def check_climnet(ctx, ES, k):
         M[r.choice(T, size=int(r.integers(3, min(9, T))), replace=False),
           i] = 1
     method = str(r.choice(["ES", "ECA"]))
-    taumax = float(r.choice([1, 2, 3])) if method == "ECA" else \
-        float(r.choice([INF, 1, 2]))
+    # (0 = simultaneous events / instantaneous coincidences only: a legal
+    #  value that is "false"; whole numbers also as Python ints)
+    taumax = float(r.choice([0, 1, 2, 3])) if method == "ECA" else \
+        float(r.choice([INF, 0, 1, 2]))
     lag = float(r.choice([0, 0, 1]))
+    if taumax == 0:
+        ctx.count("climnet_taumax_zero")
+    if r.random() < 0.4:
+        lag = int(lag)
+        if taumax != INF:
+            taumax = int(taumax)
     sym = str(r.choice(SYM_ES if method == "ES" else SYM_ECA))
     win = str(r.choice(WINDOWS))
     case = {"eventmatrix_T": M.T, "method": method, "taumax": taumax,
@@ -996,7 +1004,7 @@ def run(ctx):
         if ctx.mine(k):
             check_threshold(ctx, ES, k)
     # ---- D. climate network ---------------------------------------------
-    for k in range(160 if ctx.thorough else 32):
+    for k in range(1200 if ctx.thorough else 120):
         if ctx.mine(k):
             with ctx.guard(60):
                 check_climnet(ctx, ES, k)
